@@ -280,6 +280,12 @@ impl RunCfg {
             }
             _ => {}
         }
+        if cfg.empty_payload && !matches!(prop, P::C03) {
+            // empty payloads are not unique, so a skipped element cannot be
+            // told from a delivered one: no retention gaps in such runs
+            cfg.seg_size = 64 * 1024 * 1024;
+            cfg.seg_count = 10;
+        }
         cfg
     }
 }
@@ -364,9 +370,20 @@ struct Link {
     /// Every forward seen on this link, in push order (incl. those the model
     /// read out of the buffer when the connection was closed).
     fw_log: Vec<FwRec>,
+    /// Retained forwards (retain=1) seen on this link.
+    ret_fw: Vec<RetFw>,
     /// Number of forwards that were attributed virtually at close time and
     /// must not be attributed again when the link really drains them.
     clean: bool,
+}
+
+#[derive(Clone, Debug)]
+struct RetFw {
+    topic: String,
+    payload: Vec<u8>,
+    qos: u8,
+    #[allow(dead_code)]
+    seen_at: usize,
 }
 
 #[derive(Clone, Debug)]
@@ -738,6 +755,7 @@ impl World {
             poisoned: false,
             qos2_unreleased: 0,
             fw_log: Vec::new(),
+            ret_fw: Vec::new(),
             clean,
         });
         self.evq.push_back((l, hook::EV_CONNECT));
@@ -1482,88 +1500,161 @@ impl World {
     }
 
     /// C15: a forward flagged retain=1 must be the one-off replay owed to a
-    /// new, non-shared subscription of this connection.
+    /// new, non-shared subscription of this connection. Several new
+    /// subscriptions may be owed the same topic, so the forwards seen so far
+    /// are matched (bipartite matching) against the replay slots
+    /// (subscription, topic): every forward needs its own slot.
     fn on_retained_forward(&mut self, l: usize, conn: usize, topic: &str, payload: &[u8], qos: u8) {
         let c = self.links[l].client;
         let p = String::from_utf8_lossy(payload).to_string();
-        let n = self.spec.conns[conn].session.subs.len();
-        let mut matching_any = false;
-        let mut matching_pending = false;
-        let mut already_seen = false;
-        let mut value_ok_somewhere = false;
-        let mut qos_wrong = false;
-        let mut late = false;
-        let mut chosen: Option<usize> = None;
-        let single = self.spec.conns[conn].posvecs.len() == 1;
-        // subscriptions still in force first, then those whose UNSUBSCRIBE was
-        // accepted (the broker may finish what it had buffered for them)
-        let mut order: Vec<usize> = (0..n)
-            .filter(|si| self.spec.conns[conn].session.subs[*si].end.is_none())
-            .collect();
-        order.extend((0..n).filter(|si| self.spec.conns[conn].session.subs[*si].end.is_some()));
-        for si in order {
-            let s = &self.spec.conns[conn].session.subs[si];
-            if !spec_matches(topic, &self.spec.flogs[s.flog].filter) {
-                continue;
-            }
-            matching_any = true;
-            let Some(t0) = s.retained_t0 else { continue };
-            if s.group.is_some() {
-                continue;
-            }
-            matching_pending = true;
-            if s.retained_seen.iter().any(|t| t == topic) {
-                already_seen = true;
-                continue;
-            }
-            let (vals, unspecified) = self.spec.retained_window(topic, t0);
-            let ok = vals.iter().any(|v| v.as_deref() == Some(payload))
-                || (unspecified && self.spec.retained_ever(topic, payload));
-            if !ok {
-                continue;
-            }
-            value_ok_somewhere = true;
-            if !s.qos_hist.iter().any(|(_, q)| *q == qos) {
-                qos_wrong = true;
-                continue;
-            }
-            // replay precedes the live messages of that subscription
-            if single && s.first_live_seen && s.end.is_none() {
-                let started = self.spec.conns[conn].posvecs[0].pos[si] > s.pos;
-                if started {
-                    late = true;
-                    continue;
-                }
-            }
-            chosen = Some(si);
-            break;
-        }
-        if let Some(si) = chosen {
-            self.spec.conns[conn].session.subs[si]
-                .retained_seen
-                .push(topic.to_string());
+        let now = self.spec.accepted.len();
+        self.links[l].ret_fw.push(RetFw {
+            topic: topic.to_string(),
+            payload: payload.to_vec(),
+            qos,
+            seen_at: now,
+        });
+        if self.retained_matching(l, conn, false).is_ok() {
             self.rep.probe("retained_replay_attributed");
             return;
         }
-        let (class, why) = if !matching_any {
+        // classify: why has this forward no slot of its own
+        let subs = &self.spec.conns[conn].session.subs;
+        let matching: Vec<&Sub> = subs
+            .iter()
+            .filter(|s| spec_matches(topic, &self.spec.flogs[s.flog].filter))
+            .collect();
+        let pending: Vec<&&Sub> = matching
+            .iter()
+            .filter(|s| s.retained_t0.is_some() && s.group.is_none())
+            .collect();
+        let value_ok = pending.iter().any(|s| {
+            let (vals, unspecified) = self.spec.retained_window(topic, s.retained_t0.unwrap());
+            vals.iter().any(|v| v.as_deref() == Some(payload))
+                || (unspecified && self.spec.retained_ever(topic, payload))
+        });
+        let qos_ok = pending.iter().any(|s| s.qos_hist.iter().any(|(_, q)| *q == qos));
+        let (class, why) = if matching.is_empty() {
             ("retained_no_matching_subscription", "no subscription of this client matches that topic")
-        } else if !matching_pending {
+        } else if pending.is_empty() {
             ("retained_replay_unexpected", "no new non-shared subscription of this client is owed a retained replay (repeated or shared subscription, or a live copy flagged retained)")
-        } else if late {
-            ("retained_after_live", "the replay arrived after live messages of that subscription")
-        } else if qos_wrong {
-            ("retained_qos", "wrong QoS for the subscription")
-        } else if already_seen && !value_ok_somewhere {
-            ("retained_replayed_twice", "this topic's retained message was already replayed to that subscription")
-        } else if already_seen {
-            ("retained_replayed_twice", "this topic's retained message was already replayed to that subscription")
-        } else {
+        } else if !value_ok {
             ("retained_stale_or_cleared_value", "that payload was not the retained message of the topic at any moment since the subscription was accepted")
+        } else if !qos_ok {
+            ("retained_qos", "wrong QoS for the subscription")
+        } else {
+            ("retained_replayed_twice", "every subscription owed this topic's retained message has already received it")
         };
         self.viol(
             class,
             format!("c{c} received retained {topic}/{p} at QoS {qos}: {why}"),
         );
+    }
+
+    /// Matching between the retained forwards seen on link `l` and replay
+    /// slots (subscription, topic). `required`: instead check that every slot
+    /// that MUST have been served (stable retained value, fits the window) is
+    /// matched. Err carries (subscription path, topic) of an unmatched
+    /// required slot, or ("", "") if some forward has no slot.
+    fn retained_matching(&self, l: usize, conn: usize, required: bool) -> Result<(), (String, String)> {
+        let fws = &self.links[l].ret_fw;
+        let subs = &self.spec.conns[conn].session.subs;
+        // slots
+        let mut slots: Vec<(usize, String, bool)> = Vec::new(); // (sub, topic, must)
+        let mut topics: Vec<&String> = self.spec.retained.keys().collect();
+        topics.sort();
+        for (si, s) in subs.iter().enumerate() {
+            let Some(t0) = s.retained_t0 else { continue };
+            if s.group.is_some() {
+                continue;
+            }
+            let filter = &self.spec.flogs[s.flog].filter;
+            let mut stable = Vec::new();
+            let mut unstable = 0usize;
+            for t in topics.iter() {
+                if !spec_matches(t, filter) {
+                    continue;
+                }
+                let (vals, unspecified) = self.spec.retained_window(t, t0);
+                let is_stable = !unspecified && vals.len() == 1 && matches!(vals.first(), Some(Some(_)));
+                if is_stable {
+                    stable.push((*t).clone());
+                } else {
+                    unstable += 1;
+                }
+                slots.push((si, (*t).clone(), false));
+            }
+            if required && s.end.is_none() && !s.gone {
+                let window = if s.qos == 0 {
+                    self.cfg.max_outgoing as usize
+                } else {
+                    100usize.saturating_sub(self.links[l].qos_forwards as usize)
+                };
+                if stable.len() + unstable <= window {
+                    for slot in slots.iter_mut() {
+                        if slot.0 == si && stable.contains(&slot.1) {
+                            slot.2 = true;
+                        }
+                    }
+                }
+            }
+        }
+        let edge = |fi: usize, sl: usize| -> bool {
+            let f = &fws[fi];
+            let (si, t, _) = &slots[sl];
+            if f.topic != *t {
+                return false;
+            }
+            let s = &subs[*si];
+            if !s.qos_hist.iter().any(|(_, q)| *q == f.qos) {
+                return false;
+            }
+            let (vals, unspecified) = self.spec.retained_window(t, s.retained_t0.unwrap());
+            vals.iter().any(|v| v.as_deref() == Some(f.payload.as_slice()))
+                || (unspecified && self.spec.retained_ever(t, &f.payload))
+        };
+        // Kuhn's augmenting paths, forwards on the left
+        fn try_left(
+            fi: usize,
+            nslots: usize,
+            edge: &dyn Fn(usize, usize) -> bool,
+            seen: &mut Vec<bool>,
+            slot_of: &mut Vec<Option<usize>>,
+        ) -> bool {
+            for sl in 0..nslots {
+                if seen[sl] || !edge(fi, sl) {
+                    continue;
+                }
+                seen[sl] = true;
+                if slot_of[sl].is_none() || try_left(slot_of[sl].unwrap(), nslots, edge, seen, slot_of) {
+                    slot_of[sl] = Some(fi);
+                    return true;
+                }
+            }
+            false
+        }
+        if !required {
+            let mut slot_of: Vec<Option<usize>> = vec![None; slots.len()];
+            for fi in 0..fws.len() {
+                let mut seen = vec![false; slots.len()];
+                if !try_left(fi, slots.len(), &edge, &mut seen, &mut slot_of) {
+                    return Err((String::new(), String::new()));
+                }
+            }
+            return Ok(());
+        }
+        // required slots on the left, forwards on the right
+        let must: Vec<usize> = (0..slots.len()).filter(|i| slots[*i].2).collect();
+        let redge = |mi: usize, fi: usize| -> bool { edge(fi, must[mi]) };
+        let mut fw_of: Vec<Option<usize>> = vec![None; fws.len()];
+        for mi in 0..must.len() {
+            let mut seen = vec![false; fws.len()];
+            if !try_left(mi, fws.len(), &redge, &mut seen, &mut fw_of) {
+                let (si, t, _) = &slots[must[mi]];
+                return Err((subs[*si].path.clone(), t.clone()));
+            }
+        }
+        Ok(())
     }
 
     /// C17: a forward to a member through its shared subscription.
@@ -2952,52 +3043,12 @@ impl World {
                 continue;
             }
             let c = self.links[l].client;
-            for si in 0..self.spec.conns[conn].session.subs.len() {
-                let s = &self.spec.conns[conn].session.subs[si];
-                let Some(t0) = s.retained_t0 else { continue };
-                if s.group.is_some() || s.end.is_some() || s.gone {
-                    continue;
-                }
-                let filter = self.spec.flogs[s.flog].filter.clone();
-                let mut stable: Vec<String> = Vec::new();
-                let mut unstable = 0usize;
-                let mut topics: Vec<&String> = self.spec.retained.keys().collect();
-                topics.sort();
-                for t in topics {
-                    if !spec_matches(t, &filter) {
-                        continue;
-                    }
-                    let (vals, unspecified) = self.spec.retained_window(t, t0);
-                    if unspecified || vals.len() > 1 {
-                        unstable += 1;
-                    } else if matches!(vals.first(), Some(Some(_))) {
-                        stable.push(t.clone());
-                    }
-                }
-                let window = if s.qos == 0 {
-                    self.cfg.max_outgoing as usize
-                } else {
-                    100usize.saturating_sub(self.links[l].qos_forwards as usize)
-                };
-                let seen = s.retained_seen.len();
-                if stable.len() + unstable <= window {
-                    if let Some(t) = stable.iter().find(|t| !s.retained_seen.contains(t)) {
-                        let path = s.path.clone();
-                        let t = t.clone();
-                        self.viol(
-                            "retained_not_replayed",
-                            format!("c{c} subscribed {path} (new subscription) but never received the retained message of {t}, which was set before and unchanged since"),
-                        );
-                        return;
-                    }
-                } else if s.qos == 0 && seen < stable.len().min(window) {
-                    let path = s.path.clone();
-                    self.viol(
-                        "retained_not_replayed:fewer_than_window",
-                        format!("c{c} subscribed {path}: {seen} retained messages replayed, at least {} fit the window", stable.len().min(window)),
-                    );
-                    return;
-                }
+            if let Err((path, t)) = self.retained_matching(l, conn, true) {
+                self.viol(
+                    "retained_not_replayed",
+                    format!("c{c} subscribed {path} (new subscription) but never received the retained message of {t}, which was set before and unchanged since"),
+                );
+                return;
             }
         }
     }
@@ -3444,6 +3495,14 @@ fn run_single(
         return Outcome::Violation(v);
     }
     if let Some(f) = w.foreign.take() {
+        if std::env::var("VERIF_DEBUG_FOREIGN").is_ok() {
+            // debugging aid: look at what a foreign abort was
+            return Outcome::Violation(Violation {
+                property: prop.id(),
+                class: format!("DEBUG-foreign:{f}"),
+                message: f,
+            });
+        }
         return Outcome::Foreign(f);
     }
     Outcome::Ok
